@@ -206,7 +206,7 @@ def main(tier, seed, replay=None):
                        'only `with Worker.*lock` blocks are accepted)',
                        'is_alive() of each worker object is the oracle `alive` of the model']
     res.trusted.append('hand-written history machine Registry/Model.v around the generated functions; harness/props/c19.py')
-    core.prove(res, PROP, UNITS, PROOFS)
+    core.prove(res, PROP, UNITS, PROOFS, run_files=['theories/Registry/Run.v'])
     gen_ok = not any(w.startswith('translator:') for w, _ in res.tie_broken)
     import sys
     sys.path.insert(0, core.REPO)
